@@ -8,6 +8,8 @@ import PetgraphModel.Proofs.C13W4Check
 import PetgraphModel.Proofs.C13W4Relabel
 import PetgraphModel.Proofs.C13W4Link
 import PetgraphModel.Proofs.C13W4Driver
+import PetgraphModel.Proofs.C13W6Hint
+import PetgraphModel.Proofs.C13W6Prefix
 /-
 C13 — the VF2 family agrees with the definition of (sub)graph isomorphism.
 
@@ -40,6 +42,15 @@ What is proved here, for ALL graphs, weights and predicates:
   (`C13_vf2_sub_checked`, `C13_vf2_iso_checked`, `C13_vf2_iter_checked`), their relabeling invariance incl. the
   iterator's set of mappings and its `None` (`C13_vf2_relabel_invariant_checked`), and spells the `_matching`
   variants out for an arbitrary compatibility relation (`C13_vf2_matching_*`).
+
+  Wave 6 covers the rest of the public surface of isomorphism.rs (`docs/C13_api.md`): the iterator's
+  `size_hint` is mirrored (`sizeHintModel`: the literal factorial table, the out-of-bounds index for a 21-node
+  pattern) and judged against the number of embeddings still to come (`C13_judgeHint_sound`,
+  `C13_judgeHintBig_sound`, `C13_embeddings_le_falling`); the statement "the model's size_hint brackets the number
+  of embeddings" is FALSE (`C13_size_hint_statement_false_witness`: open finding D34) and is proved in the repaired
+  forms `C13_size_hint_partial` (pattern and target of the same size) / `C13_size_hint_repaired` (upper bound
+  `n1!/(n1-n0)!`); a prefix of the iterator's output on a pair too big to enumerate is judged by
+  `judgePrefix` (`C13_judgePrefix_sound`).
 
 VF2 itself (petgraph's search) is tied to this reference per run: `./check C13` compares the implementation's
 answers with the oracle (spec level) and with the mirror model (exactly, including the yield order).
@@ -1162,6 +1173,126 @@ theorem C13_checked_model_eq_oracle (I : Inst) (P : Problem) (hs : sideFail I = 
 
 end Checks
 
+
+/-! ### wave 6: the rest of the public surface — `size_hint` of the iterator, prefixes on big pairs
+
+`GraphMatcher` (the iterator `subgraph_isomorphisms_iter` returns) overrides `next` and `size_hint`.  `next` is
+the mirror model above.  `size_hint` is mirrored by `sizeHintModel` and judged by `judgeHint`: after `k` vectors
+were yielded, `lo ≤ (number of embeddings still to come) ≤ hi`.  The harness additionally checks, against the
+implementation itself, that every other way of consuming the iterator agrees with `next` (`iterlaw` lines). -/
+
+section W6
+
+/-- there are at most `n1 (n1-1) … (n1-n0+1)` embeddings (the number of injections) -/
+theorem C13_embeddings_le_falling (P : Problem) :
+    (subIsoAll P).length ≤ falling P.g1.nodes.length P.g0.nodes.length :=
+  subIsoAll_length_le P
+
+/-- the mirror of `size_hint`: `(0, Some(n0!))` up to 20 nodes (the literal table is the factorials), a panic
+(index out of bounds) for exactly 21 nodes, `(0, None)` from 22 nodes on -/
+theorem C13_size_hint_model (n : Nat) :
+    hintTable = (List.range 21).map fact ∧
+    (n ≤ 20 → sizeHintModel n = some (0, some (fact n))) ∧
+    (n = 21 → sizeHintModel n = none) ∧
+    (22 ≤ n → sizeHintModel n = some (0, none)) :=
+  ⟨hintTable_eq, sizeHintModel_small, fun h => h ▸ sizeHintModel_21, sizeHintModel_large⟩
+
+/-- SOUNDNESS of the judge of `size_hint`: if `ys` are the `k` vectors yielded so far and `rest` those still to
+come, and together they are the embeddings, each once (what the property demands of the iterator), then an
+accepted `(lo, hi)` brackets the number of vectors still to come -/
+theorem C13_judgeHint_sound (P : Problem) (k lo : Nat) (hi : Option Nat) (h : judgeHint P k lo hi = true)
+    (ys rest : List (List Nat)) (hk : ys.length = k) (hp : (ys ++ rest).Perm (subIsoAll P)) :
+    lo ≤ rest.length ∧ ∀ b, hi = some b → rest.length ≤ b := by
+  have hl := hp.length_eq
+  rw [List.length_append, hk] at hl
+  obtain ⟨h1, h2⟩ := (judgeHint_iff P k lo hi).mp h
+  refine ⟨by omega, fun b hb => ?_⟩
+  have := h2 b hb
+  omega
+
+/-- the judge for pairs too big to enumerate (`lo = 0`, `hi` at least the number of injections) implies the
+enumerating judge at every point of the iteration -/
+theorem C13_judgeHintBig_sound (P : Problem) (lo : Nat) (hi : Option Nat)
+    (h : judgeHintBig P.g0.nodes.length P.g1.nodes.length lo hi = true) (k : Nat) :
+    judgeHint P k lo hi = true :=
+  judgeHintBig_sound P lo hi h k
+
+/-- the statement one would like: what `size_hint` returns brackets the number of embeddings -/
+def C13_size_hint_statement : Prop :=
+  ∀ P : Problem, problemOkB P = true → ∀ lo hi,
+    sizeHintModel P.g0.nodes.length = some (lo, hi) → judgeHint P 0 lo hi = true
+
+/-- a one-node pattern and two isolated target nodes: two embeddings, `size_hint = (0, Some(1))` -/
+def exHint : Problem :=
+  { g0 := { directed := true, nodes := [0], edges := [] },
+    g1 := { directed := true, nodes := [0, 1], edges := [] } }
+
+/-- … and it is FALSE (finding D34): the upper bound is `n0!`, but up to `n1!/(n1-n0)!` vectors are yielded -/
+theorem C13_size_hint_statement_false_witness : ¬ C13_size_hint_statement := by
+  intro h
+  have := h exHint (by decide) 0 (some 1) (by decide)
+  revert this
+  decide
+
+/-- the repaired statement, same sizes: when pattern and target have the same number of nodes (the only case in
+which `n0!` IS the number of injections) the model's `size_hint` is right at every point of the iteration -/
+theorem C13_size_hint_partial (P : Problem) (hn : P.g0.nodes.length = P.g1.nodes.length) (lo : Nat) (hi : Option Nat)
+    (hm : sizeHintModel P.g0.nodes.length = some (lo, hi)) (k : Nat) : judgeHint P k lo hi = true := by
+  apply judgeHintBig_sound
+  by_cases h20 : P.g0.nodes.length ≤ 20
+  · rw [sizeHintModel_small h20] at hm
+    simp only [Option.some.injEq, Prod.mk.injEq] at hm
+    obtain ⟨rfl, rfl⟩ := hm
+    simp [judgeHintBig, ← hn, falling_self]
+  · by_cases h21 : P.g0.nodes.length = 21
+    · rw [h21, sizeHintModel_21] at hm; cases hm
+    · rw [sizeHintModel_large (by omega)] at hm
+      simp only [Option.some.injEq, Prod.mk.injEq] at hm
+      obtain ⟨rfl, rfl⟩ := hm
+      simp [judgeHintBig]
+
+/-- the repaired statement, general: `(0, Some(n1 (n1-1) … (n1-n0+1)))` is a correct `size_hint` for every pair,
+at every point of the iteration -/
+theorem C13_size_hint_repaired (P : Problem) (k : Nat) :
+    judgeHint P k 0 (some (falling P.g1.nodes.length P.g0.nodes.length)) = true := by
+  apply judgeHintBig_sound
+  simp [judgeHintBig]
+
+/-- SOUNDNESS of the judge of a prefix of the iterator's output (pairs too big to enumerate): the accepted
+vectors are pairwise different and each is an embedding of the pattern -/
+theorem C13_judgePrefix_sound (P : Problem) (ok : problemOkB P = true) (l : List (List Nat))
+    (h : judgePrefix P l = true) :
+    l.Nodup ∧ ∀ v ∈ l, v.length = P.g0.nodes.length ∧ Embeds P (mapOf P.g0.nodes v) := by
+  have ok := (C13_problemOkB_iff P).mp ok
+  obtain ⟨hnd, hmem⟩ := judgePrefix_sound P ok.wf1.1 l h
+  exact ⟨hnd, fun v hv => (mem_subIsoAll P ok.wf0.1 ok.wf1.1 v).mp (hmem v hv)⟩
+
+/-- THE PREFIX RUN of the model on a pair too big to enumerate (`biter <k>`): if it saw the iterator end, its
+vectors are — up to order — ALL embeddings of the abstract problem, each once; if the function returned `None`
+there is none.  (So an implementation that ends with fewer vectors, or has more when the model ended, violates the
+property: the `SPECFAIL` of `prefixVerdict`.) -/
+theorem C13_prefix_ended_complete (I : Vf2.Inst) (P : Problem) (hs : Vf2.sideFail I = none) (L : Vf2.Link I P)
+    (fuel k : Nat) (hk : k ≤ Vf2.fallingFact I.g1.n I.g0.n + 2) :
+    (∀ vs, iterPrefixR I fuel k = some (some (vs, true)) → vs.Perm (subIsoAll P)) ∧
+    (iterPrefixR I fuel k = some none → subIsoAll P = []) := by
+  have mo := (C13_checked_model_eq_oracle I P hs L fuel).2.2
+  constructor
+  · intro vs h
+    exact ((mo _ (iterPrefixR_ended I fuel k vs hk h)).2.1 vs true rfl).2
+  · intro h
+    exact (mo _ ((iterPrefixR_none_iff I fuel k).mp h)).1 rfl
+
+/-! non-vacuity -/
+example : problemOkB exHint = true ∧ subIsoAll exHint = [[0], [1]] ∧ sizeHintModel 1 = some (0, some 1) := by decide
+example : judgeHint exHint 0 0 (some 2) = true ∧ judgeHint exHint 0 0 (some 1) = false ∧
+    judgeHint exHint 1 0 (some 1) = true ∧ judgeHint exHint 0 3 none = false := by decide
+example : judgeHintBig 1 2 0 (some 2) = true ∧ judgeHintBig 1 2 0 (some 1) = false ∧ judgeHintBig 20 20 0 (some (fact 20)) = true := by
+  decide
+example : judgePrefix exHint [[1]] = true ∧ judgePrefix exHint [[1], [1]] = false ∧ judgePrefix exHint [[2]] = false := by
+  decide
+
+end W6
+
 /-! ### a non-trivial instance: the hypotheses are satisfiable and the oracle computes -/
 
 /-- directed 3-cycle with a pendant arc vs. a relabeled copy with one extra node -/
@@ -1270,5 +1401,11 @@ example : ∀ vs fin, Vf2.iterModelR exI Vf2.bigFuel = some (some (vs, fin)) →
 /-- the link check fires when the concrete target carries another edge weight than the abstract one -/
 example : (Vf2.linkFail { exI with g1 := { exI.g1 with outE := [[], [(3, 0), (0, 0)], [(1, 0)], [(2, 1)]] } } exP).isSome
     = true := by decide
+
+/-! wave 6: the prefix run on the example (it sees the end after the single embedding), and `size_hint` -/
+example : iterPrefixR exI Vf2.bigFuel 2 = some (some ([[2, 0, 3]], true)) ∧
+    2 ≤ Vf2.fallingFact exI.g1.n exI.g0.n + 2 := by decide
+example : judgePrefix exP [[2, 0, 3]] = true ∧ judgePrefix exP [[2, 0, 1]] = false := by decide
+example : judgeHint exP 0 0 (sizeHintModel 3).get!.2 = true := by decide
 
 end PetgraphModel.C13T
